@@ -216,6 +216,7 @@ func (b *bmpClient) loop() {
 				sentLocRIBPeerUp = true
 			}
 
+			peerUpSent := make(map[netip.Addr]struct{})
 			for {
 				select {
 				case ev := <-w.Event():
@@ -284,11 +285,17 @@ func (b *bmpClient) loop() {
 						}
 					case *watchEventPeer:
 						if msg.Type != apiutil.PEER_EVENT_END_OF_INIT {
+							// A neighbour that is de-configured while established is
+							// reported with old state -1 (deleteNeighbor): remember for
+							// whom a Peer Up was sent, so that its Peer Down is not lost.
+							_, announced := peerUpSent[msg.PeerAddress]
 							if msg.State == bgp.BGP_FSM_ESTABLISHED {
+								peerUpSent[msg.PeerAddress] = struct{}{}
 								if err := write(bmpPeerUp(msg, bmp.BMP_PEER_TYPE_GLOBAL, false, 0)); err != nil {
 									return false
 								}
-							} else if msg.Type != apiutil.PEER_EVENT_INIT && msg.OldState == bgp.BGP_FSM_ESTABLISHED {
+							} else if msg.Type != apiutil.PEER_EVENT_INIT && (msg.OldState == bgp.BGP_FSM_ESTABLISHED || announced) {
+								delete(peerUpSent, msg.PeerAddress)
 								if err := write(bmpPeerDown(msg, bmp.BMP_PEER_TYPE_GLOBAL, false, 0)); err != nil {
 									return false
 								}
@@ -441,6 +448,10 @@ func bmpPeerDown(ev *watchEventPeer, t uint8, policy bool, pd uint64) *bmp.BMPMe
 	}
 	ph := bmp.NewBMPPeerHeader(t, flags, pd, ev.PeerAddress, ev.PeerAS, ev.PeerID, float64(ev.Timestamp.Unix()))
 
+	if ev.StateReason == nil {
+		// the neighbour was de-configured (deleteNeighbor reports no FSM reason)
+		return bmp.NewBMPPeerDownNotification(*ph, uint8(bmp.BMP_PEER_DOWN_REASON_PEER_DE_CONFIGURED), nil, nil)
+	}
 	reasonCode := bmp.BMP_peerDownByUnknownReason
 	switch ev.StateReason.Type {
 	case fsmDying, fsmInvalidMsg, fsmNotificationSent, fsmHoldTimerExpired, fsmIdleTimerExpired, fsmRestartTimerExpired:
